@@ -32,6 +32,7 @@ type context struct {
 	ip       int                           // instruction pointer
 	m        *memory.Type                  // variables
 	parent   *context                      // parent context
+	tmp      value.Type                    // temp register at the point of the last yield
 	children *intmap.Map[uint64, *context] // child contexts
 }
 
@@ -473,6 +474,7 @@ func (vm *Type) Run(retResult bool) (value.Type, error) {
 
 			m = ctxp.m
 			ip = ctxp.ip
+			tmp = ctxp.tmp
 
 		case bytecode.YIELD:
 			tmp = vm.fetch(instr.Src0(), instr.Src0Addr(), m, ds)
@@ -481,6 +483,7 @@ func (vm *Type) Run(retResult bool) (value.Type, error) {
 			if ctxp.parent != nil {
 				ctxp.m = m
 				ctxp.ip = ip
+				ctxp.tmp = tmp
 
 				ctxp = ctxp.parent
 
